@@ -38,6 +38,31 @@ check(
     "TLA+ transcription + TLC exhaustive enumeration; every state replayed on the implementation; TLC validation of recorded results",
 )
 
+check(
+    "C01",
+    "TLC model-checks RaceDriver.tla (coordinator, workers, executors, FIFO channels, untimed wake-ups; one action per message handler / "
+    "executor step of driver.py) for the barrier, exactly-once, complete-once, completed-by and no-stall invariants over every interleaving of a "
+    "scenario family, and <>Complete under weak fairness; TLC behaviours and the counterexamples of the pinned model variants are replayed into the "
+    "REAL DriverActor/Driver/Worker/AsyncIoAdapter/AsyncExecutor under a simulated actor system with virtual time; every recorded execution "
+    "(also seeded random schedules, clock offsets, non-test mode) is validated by TLC against TraceRaceDriver.tla (property formulas on the "
+    "recorded state = L1, step conformance = L2).",
+    "Bounds: <= 3 workers, <= 3 clients, 2 schedule elements, iteration-based and eternal tasks, unthrottled. Trusted: the reproduction of "
+    "Thespian's delivery semantics in harness/simactor.py; executor/actor thread interleaving only at request boundaries.",
+    "TLA+ actor-protocol spec + TLC safety and liveness checking; replay of TLC behaviours/counterexamples into the real actors; TLC trace validation",
+    engine="tlc+simactor",
+)
+check(
+    "C07",
+    "Same specification and harness as C01; decides the sample-pipeline invariants of RaceDriver.tla: every produced, non-dropped sample is in exactly "
+    "one stage (sampler queue, UpdateSamples in flight, raw samples, driver store, hand-over message, race control), everything is at race control "
+    "when the race completes, only a full queue drops samples, and the final record table holds exactly one latency/service_time/processing_time "
+    "record per executed request with the right meta data. Model checked by TLC for every interleaving of shipments, periodic post-processing "
+    "ticks and step boundaries; checked on recorded executions of the real actors (queue sizes 1, 2, unbounded) by TLC trace validation.",
+    "Bounds as C01; downsampling factor 1 only; in-memory metrics store; race control is an endpoint that keeps the received metrics payloads.",
+    "TLA+ actor-protocol spec + TLC model checking; replay of TLC behaviours into the real actors; TLC trace validation",
+    engine="tlc+simactor",
+)
+
 NOT_YET = "check under construction in this round (specification planned in DESIGN.md §4); not claimed yet"
 
 
